@@ -845,6 +845,30 @@ func harnessC18world() {
 		}
 	}
 
+	if !o.grpc && vChoice(2) == 1 { // net/rpc: the host serves an object on a brokered connection, the plugin dials it and calls back
+		vCover("rpc-callback")
+		hmb := cp.(*RPCClient).broker
+		pmb := w.plugPl.impls[0].mb
+		go hmb.AcceptAndServe(21, &wImpl{tag: 300})
+		done := make(chan int, 1)
+		go func() {
+			vSetProc(p.id)
+			conn, err := pmb.Dial(21)
+			if err != nil {
+				done <- -1
+				return
+			}
+			cl := rpc.NewClient(conn)
+			var r int
+			if err := cl.Call("Plugin.Whoami", 0, &r); err != nil {
+				r = -2
+			}
+			cl.Close()
+			done <- r
+		}()
+		vAssert(<-done == 300, "C06: a brokered net/rpc callback from the plugin reaches the object the host serves on that ID")
+	}
+
 	c.Kill()
 	vAssert(p.isDead && p.killed == 0, "C18: the plugin exits gracefully")
 	vSleepUntil(vNow() + 6*sec)
@@ -897,6 +921,14 @@ func harnessC17world() {
 	if group != "" {
 		cfg.UnixSocketConfig = &UnixSocketConfig{Group: group}
 	}
+	presetKey := "" // a variable the CALLER put on the command is part of the configuration, not of the host environment
+	if o.cmd && vChoice(2) == 1 {
+		vCover("cmd-env-preset")
+		pk, pv := vNondetStr("presetkey", "="), vNondetStr("presetval", "")
+		vAssume(pk != "")
+		presetKey = pk
+		cfg.Cmd.Env = []string{pk + "=" + pv}
+	}
 	var got []string
 	var gotStdin io.Reader
 	var gotTmp string
@@ -921,20 +953,20 @@ func harnessC17world() {
 	v, ok = wEffective(got, "PLUGIN_PROTOCOL_VERSIONS")
 	vAssert(ok && v == "1", "C17: exactly the offered protocol versions are passed")
 	_, hasCert := wEffective(got, "PLUGIN_CLIENT_CERT")
-	vAssert(hasCert == (o.tls == 1), "C17: a client certificate is passed exactly when AutoMTLS is on")
+	vAssert(hasCert == (o.tls == 1) || presetKey == "PLUGIN_CLIENT_CERT", "C17: a client certificate is passed exactly when AutoMTLS is on")
 	_, hasMux := wEffective(got, "PLUGIN_MULTIPLEX_GRPC")
-	vAssert(hasMux == o.mux, "C17: the multiplexing flag is passed exactly when multiplexing is requested")
+	vAssert(hasMux == o.mux || presetKey == "PLUGIN_MULTIPLEX_GRPC", "C17: the multiplexing flag is passed exactly when multiplexing is requested")
 	g, hasGroup := wEffective(got, "PLUGIN_UNIX_SOCKET_GROUP")
 	if group != "" {
 		vCover("socket-group")
 		vAssert(hasGroup && g == group, "C17: the socket group is passed when configured")
 	} else {
-		vAssert(!hasGroup, "C17: no socket group is passed unless configured")
+		vAssert(!hasGroup || presetKey == "PLUGIN_UNIX_SOCKET_GROUP", "C17: no socket group is passed unless configured")
 	}
 	d, hasDir := wEffective(got, "PLUGIN_UNIX_SOCKET_DIR")
 	if o.cmd {
 		vCover("cmd-launch")
-		vAssert(!hasDir, "C17: no socket directory is passed for a command launch")
+		vAssert(!hasDir || presetKey == "PLUGIN_UNIX_SOCKET_DIR", "C17: no socket directory is passed for a command launch")
 	} else {
 		vCover("runner-launch")
 		vAssert(hasDir && d == gotTmp && d != "", "C17: the socket directory created for a custom runner is passed")
@@ -943,7 +975,7 @@ func harnessC17world() {
 	if skip {
 		vCover("skip-host-env")
 		_, leaked := wEffective(got, hk)
-		vAssert(!leaked || hk == "COOKIE" || hk == "PLUGIN_MIN_PORT" || hk == "PLUGIN_MAX_PORT" || hk == "PLUGIN_PROTOCOL_VERSIONS" || hk == "PLUGIN_CLIENT_CERT" || hk == "PLUGIN_MULTIPLEX_GRPC" || hk == "PLUGIN_UNIX_SOCKET_DIR" || hk == "PLUGIN_UNIX_SOCKET_GROUP",
+		vAssert(!leaked || hk == presetKey || hk == "COOKIE" || hk == "PLUGIN_MIN_PORT" || hk == "PLUGIN_MAX_PORT" || hk == "PLUGIN_PROTOCOL_VERSIONS" || hk == "PLUGIN_CLIENT_CERT" || hk == "PLUGIN_MULTIPLEX_GRPC" || hk == "PLUGIN_UNIX_SOCKET_DIR" || hk == "PLUGIN_UNIX_SOCKET_GROUP",
 			"C17: with SkipHostEnv no host variable is passed")
 	}
 	vAssert(err == nil, "C17: the plugin launched with this environment starts")
